@@ -260,6 +260,14 @@ func (g *Gen) SubQ(depth int) *SubQ {
 		l := int64(g.R.Intn(3))
 		q.Limit = &l
 	}
+	if g.R.P(0.12) {
+		// a sub-query without a predicate: paging (or nothing but a limit) over all related entities
+		q.Pred = nil
+		if q.Skip == nil && q.Limit == nil {
+			l := int64(1 + g.R.Intn(3))
+			q.Limit = &l
+		}
+	}
 	return &SubQ{Set: set, Q: q}
 }
 
